@@ -92,7 +92,13 @@ void harness(void) {
   uint32_t op;
   int32_t ref[16];
 #if GROUP == 0
+#if !defined(LINSET)
   static const uint8_t ops[] = {M_ADD_M, M_SUB_M, M_ADD_S, M_SUB_S, M_IADD_M, M_ISUB_M, M_IADD_S, M_ISUB_S};
+#elif LINSET == 0 /* cell: matrix operand */
+  static const uint8_t ops[] = {M_ADD_M, M_SUB_M, M_IADD_M, M_ISUB_M};
+#else /* cell: scalar operand */
+  static const uint8_t ops[] = {M_ADD_S, M_SUB_S, M_IADD_S, M_ISUB_S};
+#endif
   op = ops[in_range(0, sizeof(ops) - 1)];
   for (int i = 0; i < 16; i++) {
     int64_t x = A[i], y = B[i], r;
